@@ -137,10 +137,13 @@ PROPS['C13'] = dict(
           _f1_kani('t1', 20, 'f1_contract_beta1', 'thorough'),
           _f1_kani('t05', 20, 'f1_contract_beta_half', 'thorough'),
           _f1_kani('t2', 20, 'f1_contract_beta2', 'thorough')],
-    claim='metrics::_f1 (extracted text, Kani function contract): precision, recall, F-beta finite and in [0,1]; (1,1,1) when fp == fn == 0 < tp; (0,0,0) when tp == 0 -- complete over the stated count domain because _f1 is loop-free; _f1 formula (Verus): precision = tp/max(tp+fp,1), recall = tp/max(tp+fn,1), F-beta = (1+b^2)PR/(b^2 P + R) or 0, as terms over float operations; _count_tp_fp_fn == the four-way counts (fold desugared by R20); binary_f1: Err iff the lengths differ (no panic), otherwise the F-beta of the four-way counts; TpFpFn::micro_f1 == F-beta of the SUMMED counts.',
-    not_covered=['spelling_correction_f1 path (_group_words and its closing assert!: known to panic for an empty prediction, see DESIGN 8), sequence averaging (float sums), accuracy, mean edit distances (rayon + floats)', 'whitespace-correction counts as set comparison (lazy HashSet intersection/difference iterators)', 'TpFpFn::sequence_averaged_f1'],
+    claim='metrics::_f1 (extracted text, Kani function contract): precision, recall, F-beta finite and in [0,1]; (1,1,1) when fp == fn == 0 < tp; (0,0,0) when tp == 0 -- complete over the stated count domain because _f1 is loop-free; _f1 formula (Verus): precision = tp/max(tp+fp,1), recall = tp/max(tp+fn,1), F-beta = (1+b^2)PR/(b^2 P + R) or 0, as terms over float operations; _count_tp_fp_fn == the four-way counts (fold desugared by R20); binary_f1: Err iff the lengths differ (no panic), otherwise the F-beta of the four-way counts; TpFpFn::micro_f1 == F-beta of the SUMMED counts; TpFpFn::sequence_averaged_f1 == (left-to-right float sum of the per-sequence values, (1,1,1) for an empty pair) / max(n,1), component-wise; accuracy: Err iff the lengths differ, otherwise (number of equal positions) / max(n,1). _f1 is specified as a FUNCTION of the counts (f1_spec), not only bounded.',
+    not_covered=['by contract: spelling_correction_f1 path (_group_words and its closing assert!), _whitespace_correction_tp_fp_fn (lazy HashSet intersection/difference iterators), _correction_f1 (rayon), mean edit distances (rayon + floats) -- the first three are explored by the bounded probe instead'],
     assumptions=['IEEE float + * / are total deterministic functions (results uninterpreted in Verus); x as f64 and powi are uninterpreted'],
     domain=['quick: tp, fp, fn < 2^10, beta = 1; thorough: < 2^20, beta in {0.5, 1, 2}'],
+    bounded_probe=dict(label='correction_f1(public-API)', file='src/metrics.rs', line=227,
+                       what='the clauses no contract reaches, through the public API: whitespace_correction_f1 (all three modes, micro and sequence averaged) equals the F-beta of the set comparison of the selected ground-truth / predicted whitespace operations (the "empty" flag included); spelling_correction_f1 never panics, is finite in [0,1], scores a prediction equal to the target without false positives or negatives and an unchanged prediction with zero true positives',
+                       bound='whitespace: every (input, prediction, target) over the 8 spacings of "abcd", alone and in batches of two, x 3 modes x micro/sequence x graphemes x beta in {1, 0.5}; spelling: every (input, prediction, target) over 9 short sentences x micro/sequence x graphemes'),
 )
 
 PROPS['C01'] = dict(
@@ -150,6 +153,10 @@ PROPS['C01'] = dict(
     not_covered=['VocabTokenizer::de_tokenize (join_tokens / join_parts of the character tokenizer): the round trip of the character tokenizer over its alphabet is not proved; covered: one id per character, unknown id outside the alphabet, and the id maps of C04', 'the regex split itself (BaseTokenizer::split_input): assumed contract split_ok', "that the final decode of prefix/suffix ids is stripped: the statement's round trip is proved for the id stream of the text (middle part)"],
     assumptions=['BaseTokenizer::split_input: parts concatenate to the input, Special parts are special-token spellings, no parsing => one Regular part', 'CharString::new partitions the string (sum of character UTF-8 lengths == byte length)', 'UTF-8 encoding is injective and distributes over concatenation', 'R6 helper contracts (vt_extend_bytes, vt_chain3, vt_extend_full, vt_code_point_groups, vt_single_map, vt_full_ones, vt_extend_slice) = documented std semantics of the replaced iterator chains', 'representation invariant of the special vocabulary (maps mutually inverse, special ids >= 256) established by new_base_tokenizer'],
     domain=[],
+    input_search=True,
+    bounded_probe=dict(label='tokenize/de_tokenize(public-API)', file='src/tokenization.rs', line=626,
+                       what='the whole statement through the public constructors and Tokenize API, i.e. INCLUDING the parts no contract reaches: the special-token regex built in new_base_tokenizer (regex::escape, Regex are external), split_input, VocabTokenizer::de_tokenize of the character tokenizer; byte tokenizer: ids == prefix + UTF-8 bytes (special tokens as single ids) + suffix and decoding returns the text; character tokenizer: one id per character, unknown id outside the alphabet, round trip over the alphabet',
+                       bound='every text of at most 3 pieces from {a, Z, space, U+00E4, e+U+0301, CRLF, woman-ZWJ-woman, <bos>, <|sep|>, [SEP], <, |, sep} x byte tokenizer configs (graphemes, code-point groups, pad_to_multiple_of 8, prefix/suffix, special tokens with regex metacharacters) x ignore_special_tokens x character tokenizer configs'),
 )
 
 PROPS['C17'] = dict(
@@ -159,4 +166,8 @@ PROPS['C17'] = dict(
     not_covered=['the float weights written by token_groups_to_sparse_coo_matrix (values / get_weights); ', 'TokenGroup::get_weights (floats)', 'Tensorize for Batch<TrainItem>'],
     assumptions=['ndarray from_shape_vec/from_vec keep row-major data', 'R6 helper contracts (vt_extend_repeat, vt_max_or0, vt_max_len, vt_as_slice, vt_extend_cloned, vt_code_point_groups)'],
     domain=['rows * cols <= usize::MAX'],
+    input_search=True,
+    bounded_probe=dict(label='tokenize/sparse/tensorize(public-API)', file='src/data/mod.rs', line=393,
+                       what='the whole statement through the public API, INCLUDING what no contract reaches: <Batch<TrainItem> as Tensorize>::tensorize (iterator unzip chains over enum variants), TokenGroup::len / get_weights (recursive weights as f32), and the end-to-end composition tokenizer -> groupings -> sparse matrix',
+                       bound='texts of at most 3 pieces from {a, U+00E4, e+U+0301, CRLF, space, <bos>, a flag} x 16 byte-tokenizer configs (groups per text; batches of 1..3 texts for the sparse matrix); tensorize: 4 task kinds x batches of 1..3 items with (input, target) lengths in {0,1,2,5}^2'),
 )
